@@ -37,7 +37,7 @@ def _labels(prog, env, ctx):
 
 
 def check_multi(prog, ctx):
-    env = engine.run_program(prog, check_c04=True)
+    env = oracles.first(prog, check_c04=True)
     viol = oracles.clauses(env, "C04.")
     if not viol:
         env_b = oracles.again(prog, env, check_c04=True)
@@ -49,7 +49,7 @@ def check_multi(prog, ctx):
 
 
 def check_single(prog, ctx):
-    env = engine.run_program(prog, check_c04=True)
+    env = oracles.first(prog, check_c04=True)
     viol = oracles.clauses(env, "C04.")
     s = sim.Sim(prog)
     s.run()
